@@ -280,6 +280,33 @@ def sequence_elements(fa, expr, at, _depth=0):
 # ---------------------------------------------------------------------------------------------
 # Abstract run of a dispatch function for "a value whose class is K"
 # ---------------------------------------------------------------------------------------------
+def resolve_callee(fa, call):
+    """(FuncInfo, number of implicit leading parameters) of a call to a function of the repository that is evident from
+    its spelling: `f(...)` of the same module, `Cls.m(...)`, `self.m(...)` / `cls.m(...)` inside the class.  Else (None, 0)."""
+    d = A.call_dotted(call)
+    if not d:
+        return None, 0
+    parts = d.split(".")
+    repo = fa.ck.repo
+    if len(parts) == 1:
+        if fa.df.is_local(parts[0]):
+            return None, 0
+        f = repo.try_func("%s.%s" % (fa.fi.module.name, parts[0]))
+        return (f, 0) if f is not None and f.cls is None else (None, 0)
+    if len(parts) == 2:
+        owner = None
+        if parts[0] in ("self", "cls") and fa.fi.cls is not None:
+            owner = fa.fi.cls
+        else:
+            cl = repo.classes_named(parts[0])
+            owner = cl[0] if len(cl) == 1 else None
+        if owner is not None:
+            m = repo.find_method(owner, parts[1])
+            if m is not None:
+                return m, (0 if m.is_static else 1)
+    return None, 0
+
+
 class _Unsupported(Exception):
     """The function uses a construct the abstract run does not model (the caller falls back / fails closed)."""
 
@@ -729,6 +756,10 @@ class Dispatch:
                 r = self._next(e.args[0], args[1] if len(args) == 2 else None, env, w)
                 if r is not None:
                     return r
+        if not e.keywords and not any(isinstance(a, ast.Starred) for a in e.args) and any(self._is_subject(a) for a in args):
+            r = self._helper_call(e, args, w)
+            if r is not None:
+                return r
         if isinstance(f, ast.Attribute) and f.attr == "get" and 1 <= len(args) <= 2 and not e.keywords:
             recv = self.ev(f.value, env, w)
             default = args[1] if len(args) == 2 else self._const(None)
@@ -739,6 +770,38 @@ class Dispatch:
                        args=[ast.Starred(value=v, ctx=ast.Load()) if isinstance(a, ast.Starred) else v for a, v in zip(e.args, args)],
                        keywords=[ast.keyword(arg=k.arg, value=self.ev(k.value, env, w)) for k in e.keywords])
         return new
+
+    def _helper_call(self, e, args, w, _depth=[0]):
+        """Value of a call that hands the subject to another function of the repository (part of the dispatch moved into a
+        helper that was not written back into the caller), when that function answers it with one value in this world."""
+        callee, off = resolve_callee(self.fa, e)
+        if callee is None or callee.node is self.node or _depth[0] >= 3:
+            return None
+        a = callee.node.args
+        if a.vararg or a.kwarg or a.kwonlyargs:
+            return None
+        params = [x.arg for x in a.posonlyargs + a.args][off:]
+        if len(params) != len(args):
+            return None
+        _depth[0] += 1
+        try:
+            env = dict(zip(params, args))
+            comps = self._block(callee.node.body, env, w)
+        except _Unsupported:
+            return None
+        finally:
+            _depth[0] -= 1
+        vals = {(kind, val or "") for (kind, _env, val) in comps}
+        if len(vals) == 1:
+            (kind, val) = next(iter(vals))
+            if kind == "return":
+                try:
+                    return ast.parse(val, mode="eval").body
+                except SyntaxError:
+                    return None
+            if kind == "fall":
+                return self._const(None)
+        return None
 
     def _next(self, gen, default, env, w):
         """`next((E for t in TABLE if C), default)` over a literal table: the first element whose condition holds."""
